@@ -268,6 +268,7 @@ struct World {
     db_empty: Database,  // used to decode a state file through the real loader
     labels: HashMap<Vec<u8>, String>,
     next_pid: u16,
+    flip: bool,
 }
 
 fn conf_dir(data_dir: &Path, bucket: u16) -> PathBuf { data_dir.join("buckets").join(format!("{bucket:05}")).join("confirmation") }
@@ -283,7 +284,7 @@ impl World {
             DatabaseBuilder::new().segment_size_bytes(64 << 20).total_buckets(BUCKETS).bucket_ids_from_range(0..BUCKETS)
                 .reader_threads(2).writer_threads(2).sync_interval(std::time::Duration::from_millis(1)).open(p).expect("open database") };
         let (db, db_empty) = { let _g = rt.enter(); (open(root.join("db")), open(root.join("db_empty"))) };
-        World { rt, _root: root_td, root, db, db_empty, labels: HashMap::new(), next_pid: 0 }
+        World { rt, _root: root_td, root, db, db_empty, labels: HashMap::new(), next_pid: 0, flip: false }
     }
 
     /// decode a state file with the real loader: a manager over an empty database whose only
@@ -321,9 +322,16 @@ impl World {
         let evs: smallvec::SmallVec<[NewEvent; 4]> = (0..n).map(|_| NewEvent {
             event_id: uuid_v7_with_partition_hash(h), stream_id: StreamId::new(format!("c08-{pid}")).unwrap(),
             stream_version: ExpectedVersion::Any, event_name: "e".into(), timestamp: 1_700_000_000_000, metadata: vec![], payload: vec![1, 2, 3] }).collect();
-        let tx = Transaction::new(key, pid, evs).expect("transaction").with_confirmation_count(c);
+        // half of the time the count reaches the disk the way the cluster writes it: appended with a
+        // lower count, then raised by `set_confirmations` on the EVENT offsets (the commit record of a
+        // multi-event transaction keeps its append-time count)
+        self.flip = !self.flip;
+        let two_step = self.flip && c > 0;
+        let tx = Transaction::new(key, pid, evs).expect("transaction").with_confirmation_count(if two_step { 0 } else { c });
+        let txid = tx.transaction_id();
         let r = self.rt.block_on(self.db.append_events(tx)).expect("append");
         assert_eq!(r.last_partition_sequence - r.first_partition_sequence + 1, n);
+        if two_step { self.rt.block_on(self.db.set_confirmations(pid, r.offsets.clone(), txid, c)).expect("set_confirmations"); }
         r.first_partition_sequence + 1
     }
 }
